@@ -153,7 +153,7 @@ def tie_sentence(pid):
              "C18": " All of uplink.py incl. the uplink_icao division loop is tied; the address round trip is restated for the generated loop (Tie/C18Gen.lean).",
              "C19": " The generated _process_buffer (with _calc_noise, _check_preamble, _check_msg and the generated crc) is proved equal to the demodulator model; never_bad_df17 and the recovery theorems are restated for it (Tie/C19Gen.lean).",
              "C15": " The .pyx text itself is inside the proof now: its transliteration is translated to Lean (Gen.c_common.*, C conversions as 64/32/8-bit wrap-around primitives, byte arrays) on every run; c_<f>_tie prove each generated C function equal to the C-semantics model (hex2bin, bin2int, hex2int, df, typecode, crc incl. its loops and the zeroed parity bytes, icao, is_icao_assigned, squawk and altitude on every bit string, gray codes, idcode, altcode, data, allzeros, wrongstatus) and c_<f>_eq_py_tie state the property directly between the two generated modules (generated C = generated Python modulo the sentinel map, on the documented domains: <= 63 bits, hex frames of even length >= 6, ...); proved differences outside those domains (bin2int(''), 64 ones, allzeros of a 56-bit frame) mark the boundary. The generated C functions are run against the transliteration on every case (about 62 000 comparisons per quick run).",
-             "C17": " Direct theorems about the generated Decode.process_raw (no hand model in the statement; Tie/DecodeDirect.lean): the function is the three loops over its extracted bodies; the Comm-B loop never changes the key list; after a call the keys are the old ones plus the addresses of the ADS-B frames, every entry kept satisfies t - live <= timeout, an address silent for more than 61 s is absent and one with an ADS-B frame at most 59 s old is listed. These are partial-correctness statements (if the call returns); that it returns is proved for the generated method on histories whose ADS-B frames have type code 0, 1-4, 19, 23-31 and any 28-digit Comm-B frames (Tie/DecodeTotal.lean, DecodeTotal2.lean: eviction loop, whole Comm-B loop, those ADS-B frames, and with the richer invariant WF2 also type codes 19 (under FloatFinite), 29 and 31, with the table invariant re-established; history_total2_fresh_tie from the empty table; the position / NIC type codes 5-18 and 20-22 are open), and otherwise rests on the hand-model theorem history_no_crash plus the execution of the generated method against the real object on every history.",
+             "C17": " Direct theorems about the generated Decode.process_raw (no hand model in the statement; Tie/DecodeDirect.lean): the function is the three loops over its extracted bodies; the Comm-B loop never changes the key list; after a call the keys are the old ones plus the addresses of the ADS-B frames, every entry kept satisfies t - live <= timeout, an address silent for more than 61 s is absent and one with an ADS-B frame at most 59 s old is listed. These are partial-correctness statements (if the call returns); that it returns is proved for the generated method on histories whose ADS-B frames have type code 0, 1-4, 19-31 and any 28-digit Comm-B frames (Tie/DecodeTotal.lean, DecodeTotal2.lean, DecodeTotal3.lean: eviction loop, whole Comm-B loop, those ADS-B frames, and with the richer invariant WF2 also type codes 19 (under FloatFinite), 29, 31 and the GNSS-height position codes 20-22, with the table invariant re-established; history_total3_fresh_tie from the empty table; the surface / barometric position type codes 5-18 are open: their ingredients — invariant with position fields, shapes of position / position_with_ref / nuc_p / nic_v1 / nic_v2 / nic_b, total-correctness rules for try/except and continue — are proved, the walk is not assembled), and otherwise rests on the hand-model theorem history_no_crash plus the execution of the generated method against the real object on every history.",
              "C09": " airborne_velocity itself is tied now (Tie/Bds09.lean): airborne_velocity_float_tie — on every 28-digit frame the generated function equals the model on every exact member (vertical rate, speed / direction / source tags, airspeed and heading of subtypes 3-4, None and RuntimeError cases) and hands exactly the model's signed components v_we, v_sn to sqrt / atan2; guard, None-iff, shape, vertical-rate, tag, airspeed (closed form on the bits) and ground-speed component theorems follow. What stays outside the proof is named as explicit hypotheses: FloatFinite (libm results finite) and SqrtExact (int(sqrt n) = isqrt n for |components| <= 4088; checked by evaluation on all 2 x 1023^2 pairs, not proved: Float.sqrt is opaque to the kernel).",
              "C14": " The tell() clause is proved about the generated tell itself (Tie/TellGen.lean): on every 28-digit frame it returns None, unconditionally for every frame that is not a DF17 / TC19 ground-speed message with both velocity fields non-zero (tell_total_112_nofloat_tie; per-branch lemmas for each DF, type code, TC29 subtype and an arbitrary inferred BDS label), and for those under the named hypothesis FloatOK (double-precision sqrt / atan2 / degrees give finite numbers on the proved component range |v| <= 4088; Float operations are opaque to the kernel).",
              "C06": " Both generated cprNL functions (py_common and the Cython twin) are unfolded completely (py_cprNL_unfold, c_cprNL_unfold): the three guard branches are exact and proved equal to the model and to the exact staircase (zero / polar / 87-window, cprNL_guards_agree_tie; the window 86.99912999 <= |lat| <= 87 lies above the 3->2 transition, so code and exact function agree on all of it), the main branch is the explicit expression nlMain in which only cos, acos and pi are double precision; floor_tie / c_floor_tie are exact for every rational. The residual hypothesis NLFloatOK (the float evaluation gives the staircase value) is named, not proved: it fails within 1e-12 degree of a transition (two such latitudes are recorded), which is why the property theorem nl_stable_on_grid keeps every CPR grid latitude 8e-9 degree away from the transitions.",
